@@ -10,17 +10,20 @@ open Nbdime.Abs
 
 /-- the model entries `ops` mean the abstract entries `pops` over the base list `A`:
     a `patch` entry stands for the item it produces -/
-inductive Denotes (A : List J) : List Op → List (POp J) → Prop
-  | nil : Denotes A [] []
-  | add (k : Nat) (vs : List J) {es ps} : Denotes A es ps →
-      Denotes A (.addrange k vs :: es) (.add k vs :: ps)
-  | rem (k n : Nat) {es ps} : Denotes A es ps →
-      Denotes A (.removerange k n :: es) (.rem k n :: ps)
-  | pat (k : Nat) (dd : List Op) (v new : J) {es ps} : A[k]? = some v → patch v dd = .ok new →
-      Denotes A es ps → Denotes A (.patchI k dd :: es) (.pat k new :: ps)
+inductive Denotes (P : J → List Op → J → Prop) (A : List J) : List Op → List (POp J) → Prop
+  | nil : Denotes P A [] []
+  | add (k : Nat) (vs : List J) {es ps} : Denotes P A es ps →
+      Denotes P A (.addrange k vs :: es) (.add k vs :: ps)
+  | rem (k n : Nat) {es ps} : Denotes P A es ps →
+      Denotes P A (.removerange k n :: es) (.rem k n :: ps)
+  | pat (k : Nat) (dd : List Op) (v new : J) {es ps} : A[k]? = some v → P v dd new →
+      Denotes P A es ps → Denotes P A (.patchI k dd :: es) (.pat k new :: ps)
+
+/-- the item relation of `patch_list`: the sub-diff patches the item -/
+def PatchRel : J → List Op → J → Prop := fun v dd new => patch v dd = .ok new
 
 theorem patchList_denotes (A : List J) (ops : List Op) (pops : List (POp J)) (t : Nat)
-    (h : Denotes A ops pops) : patchList A ops t = .ok (pf pops t A) := by
+    (h : Denotes PatchRel A ops pops) : patchList A ops t = .ok (pf pops t A) := by
   induction h generalizing t with
   | nil => simp [patchList, pf]
   | add k vs _ ih =>
@@ -31,10 +34,11 @@ theorem patchList_denotes (A : List J) (ops : List Op) (pops : List (POp J)) (t 
     simp [ih, pf, POp.key, POp.out, POp.eat, bind, Except.bind]
   | pat k dd v new hv hp _ ih =>
     rw [patchList]
+    unfold PatchRel at hp
     simp [hv, hp, ih, pf, POp.key, POp.out, POp.eat, bind, Except.bind]
 
-theorem Denotes.append {A : List J} {d1 d2 : List Op} {p1 p2 : List (POp J)}
-    (h1 : Denotes A d1 p1) (h2 : Denotes A d2 p2) : Denotes A (d1 ++ d2) (p1 ++ p2) := by
+theorem Denotes.append {P : J → List Op → J → Prop} {A : List J} {d1 d2 : List Op} {p1 p2 : List (POp J)}
+    (h1 : Denotes P A d1 p1) (h2 : Denotes P A d2 p2) : Denotes P A (d1 ++ d2) (p1 ++ p2) := by
   induction h1 with
   | nil => simpa using h2
   | add k vs _ ih => exact .add k vs ih
@@ -62,33 +66,42 @@ theorem seqAppend_end_nonadd (d : List Op) (e : Op) (hadd : e.isAdd = false)
 /-- The state of a model diff under construction (see `Abs.Built`): `di` denotes abstract
     entries that have rebuilt `B.take j` from `A` up to base position `i`, and every key in `di`
     is at most `kb`. -/
-def BuiltM (A B : List J) (di : List Op) (i j kb : Nat) : Prop :=
-  ∃ pops, Denotes A di pops ∧ Built A B pops i j ∧ ∀ o ∈ di, o.idx ≤ kb
+def BuiltM (P : J → List Op → J → Prop) (A B : List J) (di : List Op) (i j kb : Nat) : Prop :=
+  ∃ pops, Denotes P A di pops ∧ BuiltC A B pops i j ∧ ∀ o ∈ di, o.idx ≤ kb
 
-theorem BuiltM.init (A B : List J) : BuiltM A B [] 0 0 0 :=
-  ⟨[], .nil, Built.init A B, by simp⟩
+variable {P : J → List Op → J → Prop}
 
-theorem BuiltM.mono {A B : List J} {di : List Op} {i j kb kb' : Nat} (h : BuiltM A B di i j kb)
-    (hk : kb ≤ kb') : BuiltM A B di i j kb' := by
+theorem BuiltM.init (A B : List J) : BuiltM P A B [] 0 0 0 :=
+  ⟨[], .nil, BuiltC.init A B, by simp⟩
+
+theorem BuiltM.mono {A B : List J} {di : List Op} {i j kb kb' : Nat} (h : BuiltM P A B di i j kb)
+    (hk : kb ≤ kb') : BuiltM P A B di i j kb' := by
   obtain ⟨p, h1, h2, h3⟩ := h
   exact ⟨p, h1, h2, fun o ho => Nat.le_trans (h3 o ho) hk⟩
 
 /-- a finished construction: `patch_list` turns `A` into `B` -/
 theorem BuiltM.done {A B : List J} {di : List Op} {kb : Nat}
-    (h : BuiltM A B di A.length B.length kb) : patchList A di 0 = .ok B := by
+    (h : BuiltM PatchRel A B di A.length B.length kb) : patchList A di 0 = .ok B := by
   obtain ⟨p, h1, h2, _⟩ := h
-  rw [patchList_denotes A di p 0 h1, Built.done A B p h2]
+  rw [patchList_denotes A di p 0 h1, Built.done A B p h2.1]
 
-theorem BuiltM.keep {A B : List J} {di : List Op} {i j kb : Nat} (h : BuiltM A B di i j kb)
-    (hi : i < A.length) (hj : j < B.length) (heq : A[i] = B[j]) : BuiltM A B di (i + 1) (j + 1) kb := by
+/-- a finished construction, for any item relation: ordered in-bounds entries that rebuild `B` -/
+theorem BuiltM.done' {A B : List J} {di : List Op} {kb : Nat}
+    (h : BuiltM P A B di A.length B.length kb) :
+    ∃ pops, Denotes P A di pops ∧ ChainFrom A.length 0 pops ∧ pf pops 0 A = B := by
+  obtain ⟨p, h1, h2, _⟩ := h
+  exact ⟨p, h1, h2.2, Built.done A B p h2.1⟩
+
+theorem BuiltM.keep {A B : List J} {di : List Op} {i j kb : Nat} (h : BuiltM P A B di i j kb)
+    (hi : i < A.length) (hj : j < B.length) (heq : A[i] = B[j]) : BuiltM P A B di (i + 1) (j + 1) kb := by
   obtain ⟨p, h1, h2, h3⟩ := h
-  exact ⟨p, h1, Built.keep A B p i j h2 hi hj heq, h3⟩
+  exact ⟨p, h1, BuiltC.keep A B p i j h2 hi hj heq, h3⟩
 
 /-- `seqPatch` for an aligned pair whose sub-diff patches `A[i]` into `B[j]` -/
-theorem BuiltM.patch {A B : List J} {di : List Op} {i j kb : Nat} (h : BuiltM A B di i j kb)
+theorem BuiltM.patch {A B : List J} {di : List Op} {i j kb : Nat} (h : BuiltM P A B di i j kb)
     (hkb : kb ≤ i) (hi : i < A.length) (hj : j < B.length) (cd : List Op)
-    (hp : patch A[i] cd = .ok B[j]) (hnil : cd = [] → A[i] = B[j]) :
-    BuiltM A B (seqPatch di i cd) (i + 1) (j + 1) i := by
+    (hp : P A[i] cd B[j]) (hnil : cd = [] → A[i] = B[j]) :
+    BuiltM P A B (seqPatch di i cd) (i + 1) (j + 1) i := by
   unfold seqPatch
   by_cases hc : cd.isEmpty = true
   · have : cd = [] := by simpa using hc
@@ -101,9 +114,9 @@ theorem BuiltM.patch {A B : List J} {di : List Op} {i j kb : Nat} (h : BuiltM A 
       show o.idx ≤ i
       omega)]
     refine ⟨p ++ [.pat i B[j]], h1.append (.pat i cd A[i] B[j] (by simp [hi]) hp .nil), ?_, ?_⟩
-    · have := Built.push A B p i j (.pat i B[j]) h2 rfl (by
+    · have := BuiltC.push A B p i j (.pat i B[j]) h2 rfl (by
         simp only [POp.out, List.length_singleton]
-        rw [slice'_succ B j hj]) (by simp [POp.out]; omega)
+        rw [slice'_succ B j hj]) (by simp [POp.out]; omega) (by simp [POp.eat]; omega)
       simpa [POp.eat, POp.out] using this
     · intro o ho
       simp only [List.mem_append, List.mem_singleton] at ho
@@ -113,10 +126,10 @@ theorem BuiltM.patch {A B : List J} {di : List Op} {i j kb : Nat} (h : BuiltM A 
 
 /-- the gap before an aligned run: `n` base items removed and `vs` inserted at base position `i`
     (the builder puts the addrange in front of the removerange) -/
-theorem BuiltM.gap {A B : List J} {di : List Op} {i j kb : Nat} (h : BuiltM A B di i j kb)
+theorem BuiltM.gap {A B : List J} {di : List Op} {i j kb : Nat} (h : BuiltM P A B di i j kb)
     (hkb : kb < i ∨ di = []) (n : Nat) (vs : List J) (hvs : vs = slice' B j (j + vs.length))
-    (hjb : j + vs.length ≤ B.length) :
-    BuiltM A B (seqAddrange (seqRemoverange di i n) i vs) (i + n) (j + vs.length) i := by
+    (hjb : j + vs.length ≤ B.length) (hN : i + n ≤ A.length) :
+    BuiltM P A B (seqAddrange (seqRemoverange di i n) i vs) (i + n) (j + vs.length) i := by
   obtain ⟨p, h1, h2, h3⟩ := h
   have hlt : ∀ o ∈ di, o.idx < i := by
     intro o ho
@@ -134,7 +147,8 @@ theorem BuiltM.gap {A B : List J} {di : List Op} {i j kb : Nat} (h : BuiltM A B 
     · simp only [seqRemoverange, seqAddrange, beq_self_eq_true, if_true, hv, Bool.false_eq_true, if_false]
       rw [seqAppend_end di (.addrange i vs) (by simpa [Op.idx] using hlt)]
       refine ⟨p ++ [.add i vs], h1.append (.add i vs .nil), ?_, ?_⟩
-      · have := Built.push A B p i j (.add i vs) h2 rfl (by simpa [POp.out] using hvs) (by simpa [POp.out] using hjb)
+      · have := BuiltC.push A B p i j (.add i vs) h2 rfl (by simpa [POp.out] using hvs) (by simpa [POp.out] using hjb)
+          (by simp [POp.eat]; omega)
         simpa [POp.eat, POp.out] using this
       · intro o ho
         simp only [List.mem_append, List.mem_singleton] at ho
@@ -149,7 +163,8 @@ theorem BuiltM.gap {A B : List J} {di : List Op} {i j kb : Nat} (h : BuiltM A B 
       subst hv'
       simp only [hrem, seqAddrange, List.isEmpty_nil, if_true, List.length_nil, Nat.add_zero]
       refine ⟨p ++ [.rem i n], h1.append (.rem i n .nil), ?_, ?_⟩
-      · have := Built.push A B p i j (.rem i n) h2 rfl (by simp [POp.out, slice'_self]) (by simp [POp.out]; omega)
+      · have := BuiltC.push A B p i j (.rem i n) h2 rfl (by simp [POp.out, slice'_self]) (by simp [POp.out]; omega)
+          (by simpa [POp.eat] using hN)
         simpa [POp.eat, POp.out] using this
       · intro o ho
         simp only [List.mem_append, List.mem_singleton] at ho
@@ -159,12 +174,13 @@ theorem BuiltM.gap {A B : List J} {di : List Op} {i j kb : Nat} (h : BuiltM A B 
     · simp only [hrem, seqAddrange, hv, Bool.false_eq_true, if_false]
       rw [seqAppend_add_before_rem di i n vs hlt]
       refine ⟨p ++ [.add i vs] ++ [.rem i n], ?_, ?_, ?_⟩
-      · have := (h1.append (.add i vs .nil)).append (.rem i n (A := A) .nil)
+      · have := (h1.append (.add i vs .nil)).append (.rem i n (P := P) (A := A) .nil)
         simpa [List.append_assoc] using this
-      · have s1 := Built.push A B p i j (.add i vs) h2 rfl (by simpa [POp.out] using hvs) (by simpa [POp.out] using hjb)
+      · have s1 := BuiltC.push A B p i j (.add i vs) h2 rfl (by simpa [POp.out] using hvs) (by simpa [POp.out] using hjb)
+          (by simp [POp.eat]; omega)
         simp only [POp.eat, POp.out, Nat.add_zero] at s1
-        have s2 := Built.push A B (p ++ [.add i vs]) i (j + vs.length) (.rem i n) s1 rfl
-          (by simp [POp.out, slice'_self]) (by simp [POp.out]; omega)
+        have s2 := BuiltC.push A B (p ++ [.add i vs]) i (j + vs.length) (.rem i n) s1 rfl
+          (by simp [POp.out, slice'_self]) (by simp [POp.out]; omega) (by simpa [POp.eat] using hN)
         simpa [POp.eat, POp.out] using s2
       · intro o ho
         simp only [List.mem_append, List.mem_cons, List.not_mem_nil, or_false] at ho
